@@ -112,6 +112,13 @@ let file_exec (f : string array) : string =
     Bytes.set s off (Char.chr (Char.code (Bytes.get s off) lxor mask));
     cur := df_open !cur.df_id (bytes_of_string (Bytes.to_string s));
     string_of_int (int_of_n (df_size !cur))
+  | "copyblock" ->
+    let src = int_of_string f.(2) and dst = int_of_string f.(3) in
+    let s = Bytes.of_string (string_of_bytes !cur.df_bytes) in
+    if (src + 1) * 32768 > Bytes.length s || (dst + 1) * 32768 > Bytes.length s then "err copyblock" else begin
+      Bytes.blit (Bytes.sub s (src * 32768) 32768) 0 s (dst * 32768) 32768;
+      cur := df_open !cur.df_id (bytes_of_string (Bytes.to_string s));
+      string_of_int (int_of_n (df_size !cur)) end
   | "trunc" ->
     let s = string_of_bytes !cur.df_bytes in
     let k = min (int_of_string f.(2)) (String.length s) in
